@@ -1619,6 +1619,15 @@ fn plan_collector(w: &World, actor: &mut Actor, _l: &Ledger) -> Vec<(Tx, String)
     let pi = &w.pools[rng.idx(w.pools.len())];
     let da = actor.tokens[&pi.keys.mint_a];
     let db = actor.tokens[&pi.keys.mint_b];
+    if rng.chance(1, 6) {
+        // hand the authority over to itself (exercises the setter, keeps the world usable)
+        let i = ix::mk(
+            whirlpool::accounts::SetCollectProtocolFeesAuthority { whirlpools_config: w.config, collect_protocol_fees_authority: actor.wallet, new_collect_protocol_fees_authority: actor.wallet },
+            whirlpool::instruction::SetCollectProtocolFeesAuthority {},
+        );
+        actor.rng = rng.clone();
+        return vec![(tx1(i), "set_collect_protocol_fees_authority".to_string())];
+    }
     let ixn = if rng.chance(1, 2) && !V2_ONLY.with(|c| c.get()) {
         ix::collect_protocol_fees(&pi.keys, &actor.wallet, &da, &db)
     } else {
